@@ -205,6 +205,7 @@ def run(eng, rep):
                 "value-flow shows the stored labels never alias Model.eval_num without a .copy() (T11); the labels' provenance is the point counter (T4, shared "
                 "with C03-1); in solve the returned Jacobian is rescaled by exactly one statement -- column i divided by scaling_changes[1][i] for i in range(n), "
                 "outside every other loop, guarded by exactly `scaling_changes is not None and jacmin is not None`, between the last run and the result.")
+    rep.explain('Also decided: Jacobian and labels come from the same record at the final selection (C11-1b).')
     rep.not_decided += ["equality with an independent fit / 'equals A for linear residuals' (numerical)"]
     A = anchors(eng)
     rule_together(eng, rep)
